@@ -10,7 +10,7 @@ import webob.exc
 from pyvc.core import Undecided, PathEnd
 from pyvc.interp import PyRaise
 from pyvc import runner
-from contracts import handlers as H
+from contracts import handlers as H, lib, web
 from props import common
 
 from placement import exception
@@ -118,8 +118,56 @@ def script_ensure_consumer(ex):
     ex.oblige('C15.C.ensure_consumer.returns', True, 'C')
 
 
+def parser_scripts():
+    """the query-string parsers whose bodies the engine can execute with
+    strings abstracted (pieces of a split are unconstrained strings, A-str):
+    the only exception that leaves them is the 400 they raise themselves --
+    the raise set the handler-level scripts assume for them"""
+    import itertools
+    import webob.exc
+    from placement import util as putil
+    from pyvc.interp import Interp
+    fns = ((putil.normalize_resources_qs_param, 'str'),
+           (putil.normalize_member_of_qs_param, 'str'),
+           (putil.normalize_in_tree_qs_params, 'str'),
+           (putil.normalize_member_of_qs_params, 'req'))
+    all_parsers = [f for f, _ in fns] + [
+        putil.normalize_traits_qs_param, putil.normalize_traits_qs_params,
+        putil.normalize_traits_qs_param_to_legacy_value]
+
+    def mk(fn, kind):
+        def script(ex):
+            reg = common.full_registry()
+            for f in all_parsers:
+                reg['calls'].pop(id(f), None)
+            reg['calls'][id(itertools.chain)] = \
+                lambda I, a, k: I.fresh_list('chain', 'str')
+            I = Interp(ex, reg)
+            ctx = lib.CtxStub()
+            I.ghost['ctx'] = ctx
+            if kind == 'str':
+                args = [I.fresh('qs', 'str')]
+            else:
+                args = [web.ReqStub(ctx, web.fresh_version(I))]
+            try:
+                I.call(fn, args, {})
+            except PyRaise as pr:
+                ex.oblige('C15.T.parser_raises_only_400',
+                          issubclass(pr.exc.cls, webob.exc.HTTPBadRequest), 'T',
+                          {'parser': fn.__name__, 'raised': pr.exc.cls.__name__,
+                           'signature': '%s raises %s' % (fn.__name__,
+                                                          pr.exc.cls.__name__)})
+                return
+            ex.oblige('C15.T.parser_returns', True, 'T', {'parser': fn.__name__})
+        return script
+    return [(fn, mk(fn, kind)) for fn, kind in fns]
+
+
 def build(tier, seed):
     chk = runner.Check('C15', tier, seed)
+    for fn, script in parser_scripts():
+        chk.script('parser ' + fn.__name__, script,
+                   ['placement/util.py:' + fn.__name__])
     for route, method, wobj in H.routes():
         chk.script('%s %s' % (method, route), make_script(route, method, wobj),
                    common.handler_names(wobj))
